@@ -68,6 +68,10 @@ def check_type(value: Any, attr_type: Type) -> bool:
             or sys.version_info >= (3, 9)
             and isinstance(attr_type, types.GenericAlias)
         ):
+            if hasattr(attr_type.__origin__, "__spec_class_check_type__"):
+                # The generic knows how to check its own parameters (e.g. the
+                # item and key types of `KeyedList[T, K]`).
+                return attr_type.__origin__.__spec_class_check_type__(value, attr_type)
             if not isinstance(value, attr_type.__origin__):
                 return False
             if attr_type.__origin__ in (list, set):
